@@ -60,7 +60,15 @@ def main():
             tail = [l for l in out.splitlines() if l.strip()][-1] if out.strip() else ''
             res['baseline'] = tail
         lean = os.path.join(work, 'lean')
-        shutil.copytree(os.path.join(VERIF, 'lean'), lean, symlinks=True)
+        for attempt in range(6):
+            try:
+                shutil.copytree(os.path.join(VERIF, 'lean'), lean, symlinks=True)
+                break
+            except shutil.Error:
+                # a concurrent `lake build` replaced files under our feet: start the copy again
+                shutil.rmtree(lean, ignore_errors=True)
+                import time
+                time.sleep(3)
         outdir = os.path.join(work, 'out')
         os.makedirs(outdir)
         env = dict(os.environ, VERIF_REPO=repo, VERIF_LEAN_DIR=lean, VERIF_OUT_DIR=outdir)
